@@ -3,7 +3,10 @@ pub mod checks;
 pub mod clock;
 pub mod explore;
 pub mod fam;
+pub mod monitors;
 pub mod rng;
+pub mod sim;
+pub mod simrun;
 pub mod spec;
 pub mod supervise;
 pub mod types;
